@@ -75,6 +75,7 @@ fn mixed(case: &mut Case, r: &mut Rng) {
     case.sim.write_stall_pct = *r.pick(&[0u64, 0, 20]);
     case.sim.manual_alias = case.engine.resolver == Resolver::Manual;
     case.broker.inbound_alias = r.chance(1, 2);
+    case.sim.empty_payload_pct = *r.pick(&[0u64, 0, 15]);
 }
 
 pub fn gen_case(prop: &str, seed: u64, idx: u64) -> Case {
